@@ -31,6 +31,7 @@ EXPLANATION = (
     "exactly when no local resolution succeeded. NOT decided (not applicable to static analysis): end-to-end reachability / delivery success of permitted "
     "exchanges over topologies, ARP behaviour under cold and warm caches, interleavings with interface toggles."
 )
+TECHNIQUE = "static: CFG must-pass for TTL, truth tables of addressee tests, well-founded-recursion check, order table of the route-selection guard"
 ASSUMPTIONS = ["Frame.decrement_ttl lowers ip.ttl by one (checked structurally)",
                "IPv4Network membership / prefixlen behave as in the standard library"]
 
